@@ -9,7 +9,9 @@ What is emitted (and nothing else):
   * constant name tables (designated-initialiser arrays of string literals);
   * leaf functions in a restricted C subset (see `Tr`), with C integer semantics made explicit:
     wrap-around by type, undefined shifts / failing asserts / out-of-range table reads = None;
-  * lock skeletons of the public functions of trie-pfx.c and ht-spkitable.c.
+  * lock skeletons of the public functions of trie-pfx.c and ht-spkitable.c - written to a SEPARATE file,
+    coq/theories/Gen/LockSkeletons.v (imported only by Conc/*.v and Props/Properties_C16.v / _C06.v), so that a
+    problem there cannot break the rest of the development.  VERIF_SKEL_OUT=<path> writes only that file, to <path>.
 A construct outside the subset makes the function come out as `<f>_untranslated`, which breaks
 the Coq files that mention `<f>_gen` - a broken tie, handled by the checks.
 """
